@@ -1161,7 +1161,10 @@ impl EntryWriter<'_> {
             }
         }
 
+        #[cfg(not(metrique_verif))]
         let timestamp = self.timestamp.unwrap_or_else(SystemTime::now);
+        #[cfg(metrique_verif)]
+        let timestamp = self.timestamp.unwrap_or_else(detsim::time::wall_now);
         let unix = timestamp
             .duration_since(SystemTime::UNIX_EPOCH)
             .unwrap_or_default();
